@@ -263,7 +263,13 @@ class SymRat:
 
     # everything else that would read the dummy payload traps
     __int__ = _leak('__int__')
-    __float__ = _leak('__float__')
+    def __float__(self):
+        """float() of a symbolic number: outside the exact fragment.  The path is *concretised* at this
+        value (DART-style): the engine picks a value -- close to, but different from, a value that was
+        converted before on this path, so that float rounding can matter -- pins the term to it and returns
+        the real float.  Obligations on this path then speak about that single point only (counted)."""
+        return E.concretise_float(self.z)
+
     __index__ = _leak('__index__')
     __bytes__ = _leak('__bytes__')
     __reduce__ = _leak('__reduce__')
@@ -282,24 +288,31 @@ class SymRat:
     as_fraction = _leak('as_fraction')
     conjugate = _leak('conjugate')
 
-    # numerator / denominator with a symbolic meaning (superset of real pairs)
-    def _num_den(self):
+    # numerator / denominator with a symbolic meaning (superset of the reduced pairs); the non-linear
+    # link n == x * d is only added when the numerator is actually asked for
+    def _den(self):
         try:
-            return self._nd
+            return self._nd[1]
         except AttributeError:
             pass
-        n = E.fresh('int', 'num')
         d = E.fresh('int', 'den')
-        E._add(z3.And(d >= 1, z3.ToReal(n) == self.z * z3.ToReal(d),
-                      (d == 1) == z3.IsInt(self.z)))
-        object.__setattr__(self, '_nd', (SymInt(n), SymInt(d)))
+        E._add(z3.And(d >= 1, (d == 1) == z3.IsInt(self.z)))
+        object.__setattr__(self, '_nd', (None, SymInt(d)))
+        return self._nd[1]
+
+    def _num_den(self):
+        d = self._den()
+        if self._nd[0] is None:
+            n = E.fresh('int', 'num')
+            E._add(z3.ToReal(n) == self.z * z3.ToReal(d.z))
+            object.__setattr__(self, '_nd', (SymInt(n), d))
         return self._nd
 
     @property
     def numerator(self): return self._num_den()[0]
 
     @property
-    def denominator(self): return self._num_den()[1]
+    def denominator(self): return self._den()
 
 
 class SymDec(SymRat, Decimal):
